@@ -622,6 +622,13 @@ def check_history(ad, case, ctx):
     seen_removal = inserted_after = reinsertion = False
     n_reject = 0
     for step, aop in enumerate(case["ops"]):
+        if (cur_obs is None and aop["op"] in ("set_attr_node", "remove_attr_node", "set_attr_edge",
+                                              "remove_attr_edge")
+                and (any(isinstance(m, Alt) for m in model.nodes.values())
+                     or any(isinstance(r[1], Alt) for r in model.edges.values()))):
+            # an in-place edit of a metadata dict whose content is one of several allowed
+            # values: the model has to learn first which one the library holds
+            cur_obs = check_against_model(ad, h, model, U, probes, "before step %d" % step)
         c = resolve(ad, aop, model, U)
         if c is None:
             ctx.exclude({"add_edges": "weighted batch whose duplicate test is unspecified"}.get(
@@ -645,12 +652,24 @@ def check_history(ad, case, ctx):
             note_probe(c["e"])
         for e in c.get("es", []):
             note_probe(e)
+        # quiet step: the object is NOT queried around this mutation, so that two or more
+        # mutations separate two observations (a result memoised by the library and
+        # invalidated by a stamp that survives e.g. a removal plus an insertion is stale then).
+        # cur_obs is None while the last observation is older than the last mutation.
+        quiet = bool(aop.get("quiet")) and c["op"] != "copy"
         if len(probes) != n_probes:  # the observation now asks about more hyperedges
-            cur_obs = full_obs(ad, h, U, probes)
+            if cur_obs is not None and not quiet:
+                cur_obs = full_obs(ad, h, U, probes)
+            else:
+                cur_obs = None
             frozen = [(h0, m0, full_obs(ad, h0, U, probes)) for (h0, m0, _) in frozen]
+        elif quiet:
+            cur_obs = None
         if c["op"] == "copy":
             ctx.label("op:copy")
             h2 = h.copy()
+            if cur_obs is None:
+                cur_obs = check_against_model(ad, h, model, U, probes, desc + " (original)")
             frozen.append((h, dc(model), cur_obs))
             h = h2
             cur_obs = check_against_model(ad, h, model, U, probes, desc)
@@ -688,13 +707,26 @@ def check_history(ad, case, ctx):
                     ctx.label("keep_edges_shrink")
             elif c["op"] in ("add_edge", "add_edges") and seen_removal:
                 inserted_after = True
-            cur_obs = check_against_model(ad, h, model, U, probes, desc)
+            if quiet:
+                ctx.label("quiet_step")
+                cur_obs = None
+            else:
+                if cur_obs is None:
+                    ctx.label("observation_after_two_or_more_mutations")
+                cur_obs = check_against_model(ad, h, model, U, probes, desc)
         else:
             n_reject += 1
             ctx.label("rejected:" + c["op"])
             if c["op"] in ("remove_edges", "remove_nodes") and len(c.get("es") or c.get("ns") or []) > 1:
                 ctx.label("rejected-bulk-removal-with-existing-tail")
-            obs = full_obs(ad, h, U, probes)
+            if cur_obs is None:
+                # no observation since the last accepted mutation: the state after the rejected
+                # call is compared with the model instead of with an observation before it
+                cur_obs = check_against_model(ad, h, model, U, probes,
+                                              desc + " (rejected; state must be that of the model)")
+                obs = cur_obs
+            else:
+                obs = full_obs(ad, h, U, probes)
             d = diff_obs(cur_obs, obs)
             if d is not None:
                 raise Violation(
@@ -707,8 +739,10 @@ def check_history(ad, case, ctx):
             if d is not None:
                 raise Violation("%s on a copy changed the original: %s" % (desc, d),
                                 key="copy-aliasing")
-        if ad.extra_checks(h, model, U, step, ctx, final=False):
+        if cur_obs is not None and ad.extra_checks(h, model, U, step, ctx, final=False):
             _unchanged(ad, h, U, probes, cur_obs, desc)
+    if cur_obs is None:
+        cur_obs = check_against_model(ad, h, model, U, probes, "the end of the history")
     ad.extra_checks(h, model, U, len(case["ops"]), ctx, final=True)
     _unchanged(ad, h, U, probes, cur_obs, "the end of the history")
     if frozen:
@@ -865,4 +899,11 @@ def histories(draw, max_steps, kinds=None, t_strategy=None, clear=True,
         if follow is not None:
             ops.append(follow)
         ops.extend(follows)
+    # half of the histories are observed after every step; in the others about every third
+    # step is "quiet" (no query around it): observations then follow two or more mutations
+    if draw(st.booleans()):
+        bits = draw(st.lists(st.integers(0, 2), min_size=len(ops), max_size=len(ops)))
+        for op, b in zip(ops, bits):
+            if b == 0:
+                op["quiet"] = True
     return {"weighted": weighted, "universe": universe, "init": init, "ops": ops}
